@@ -1,4 +1,79 @@
-import CosetModel.Api
+/-
+  C09 — message structures: accepted iff they match their CDDL, slots map to fields.
+  (Both directions, for all eight structures; the per-slot rules for headers are C08's.)
+-/
+import CosetProofs.Shapes
 namespace Coset.Props.C09
+open Coset
+
+theorem CoseSign1 (v : Value) (m : CoseSign1) :
+    CoseSign1.fromValue v = .ok m ↔
+      ∃ x0 x1 x2, v = .array [x0, x1, x2, .bytes m.signature] ∧ phFromBstr x0 = .ok m.protected_ ∧
+        hdrFromValue x1 = .ok m.unprotected ∧ optBytes x2 = .ok m.payload := sign1_ok_iff v m
+
+theorem CoseMac0 (v : Value) (m : CoseMac0) :
+    CoseMac0.fromValue v = .ok m ↔
+      ∃ x0 x1 x2, v = .array [x0, x1, x2, .bytes m.tag] ∧ phFromBstr x0 = .ok m.protected_ ∧
+        hdrFromValue x1 = .ok m.unprotected ∧ optBytes x2 = .ok m.payload := mac0_ok_iff v m
+
+theorem CoseEncrypt0 (v : Value) (m : CoseEncrypt0) :
+    CoseEncrypt0.fromValue v = .ok m ↔
+      ∃ x0 x1 x2, v = .array [x0, x1, x2] ∧ phFromBstr x0 = .ok m.protected_ ∧
+        hdrFromValue x1 = .ok m.unprotected ∧ optBytes x2 = .ok m.ciphertext := encrypt0_ok_iff v m
+
+theorem CoseSignature (fuel d : Nat) (v : Value) (s : CoseSignature) :
+    CoseSignature.fromValue (fuel + 1) d v = .ok s ↔
+      ∃ x0 x1, v = .array [x0, x1, .bytes s.signature] ∧ ProtectedHeader.fromBstr fuel d x0 = .ok s.protected_ ∧
+        Header.fromValue fuel d x1 = .ok s.unprotected := signature_ok_iff fuel d v s
+
+theorem CoseSign (v : Value) (m : CoseSign) :
+    CoseSign.fromValue v = .ok m ↔
+      ∃ x0 x1 x2 sigs, v = .array [x0, x1, x2, .array sigs] ∧ phFromBstr x0 = .ok m.protected_ ∧ hdrFromValue x1 = .ok m.unprotected ∧
+        optBytes x2 = .ok m.payload ∧ mapRes (fun s => (sigFromValue s).mapErr .unexpectedItem) sigs = .ok m.signatures := sign_ok_iff v m
+
+theorem CoseMac (v : Value) (m : CoseMac) :
+    CoseMac.fromValue v = .ok m ↔
+      ∃ x0 x1 x2 rs, v = .array [x0, x1, x2, .bytes m.tag, .array rs] ∧ phFromBstr x0 = .ok m.protected_ ∧ hdrFromValue x1 = .ok m.unprotected ∧
+        optBytes x2 = .ok m.payload ∧ mapRes rcpFromValue rs = .ok m.recipients := mac_ok_iff v m
+
+theorem CoseEncrypt (v : Value) (m : CoseEncrypt) :
+    CoseEncrypt.fromValue v = .ok m ↔
+      ∃ x0 x1 x2 rs, v = .array [x0, x1, x2, .array rs] ∧ phFromBstr x0 = .ok m.protected_ ∧ hdrFromValue x1 = .ok m.unprotected ∧
+        optBytes x2 = .ok m.ciphertext ∧ mapRes rcpFromValue rs = .ok m.recipients := encrypt_ok_iff v m
+
+theorem CoseRecipient (fuel : Nat) (v : Value) (p : ProtectedHeader) (u : Header) (ct : Option Bytes) (rcps : List CoseRecipient) :
+    CoseRecipient.fromValue (fuel + 1) v = .ok (.mk p u ct rcps) ↔
+      (∃ x0 x1 x2, v = .array [x0, x1, x2] ∧ phFromBstr x0 = .ok p ∧ hdrFromValue x1 = .ok u ∧ optBytes x2 = .ok ct ∧ rcps = []) ∨
+      (∃ x0 x1 x2 rs, v = .array [x0, x1, x2, .array rs] ∧ phFromBstr x0 = .ok p ∧ hdrFromValue x1 = .ok u ∧ optBytes x2 = .ok ct ∧
+        mapRes (CoseRecipient.fromValue fuel) rs = .ok rcps) := recipient_ok_iff fuel v p u ct rcps
+
+/-- the payload / ciphertext slot: a byte string or nil, nil giving an absent value; everything else is rejected. -/
+theorem payload_slot (x : Value) (o : Option Bytes) :
+    optBytes x = .ok o ↔ ((∃ b, x = .bytes b ∧ o = some b) ∨ (x = .null ∧ o = none)) := by
+  cases x <;> simp [optBytes, typeError] <;> exact eq_comm
+
+/-- the protected slot: a byte string that is empty or exactly one encoded well-formed header map (no trailing bytes). -/
+theorem protected_slot (fuel d : Nat) (x : Value) (p : ProtectedHeader) :
+    ProtectedHeader.fromBstr (fuel + 1) d x = .ok p ↔
+      ∃ data, x = .bytes data ∧
+        ((data = [] ∧ p = .mk (some []) Header.default) ∨
+         (data ≠ [] ∧ ∃ v h, readToValue data = .ok v ∧ Header.fromValue fuel d v = .ok h ∧ p = .mk (some data) h)) :=
+  protected_ok_iff fuel d x p
+
+/-- several types share a shape: the same 4-element array is a COSE_Sign1 and a COSE_Mac0, each putting slot i in *its* field i. -/
+example : (fromSlice CoseSign1.fromValue [0x84, 0x40, 0xa0, 0x41, 0x01, 0x41, 0x02]).isOk = true ∧
+    (fromSlice CoseMac0.fromValue [0x84, 0x40, 0xa0, 0x41, 0x01, 0x41, 0x02]).isOk = true ∧
+    (fromSlice CoseEncrypt.fromValue [0x84, 0x40, 0xa0, 0x41, 0x01, 0x41, 0x02]).isOk = false := by decide +kernel
+
+#print axioms CoseSign1
+#print axioms CoseMac0
+#print axioms CoseEncrypt0
+#print axioms CoseSignature
+#print axioms CoseSign
+#print axioms CoseMac
+#print axioms CoseEncrypt
+#print axioms CoseRecipient
+#print axioms payload_slot
+#print axioms protected_slot
 
 end Coset.Props.C09
